@@ -258,6 +258,54 @@ func runC16(ctx *core.Ctx) {
 		}
 		cs.Flush(lc)
 	})
+	// reader faults around the tokenizer's 4096-byte buffer boundaries (long inputs; only offsets near
+	// multiples of 4096 and the last bytes are faulted, writer faults are left to the short inputs)
+	ctx.Run("reader-faults-at-buffer-boundaries", ctx.N(120, 1200), func(cs *core.Case) {
+		env := NewEnv(pols[cs.Index%len(pols)])
+		var b strings.Builder
+		for b.Len() < 4200+cs.R.Intn(9000) {
+			b.WriteString(c16Input(cs, env))
+		}
+		in := b.String()
+		want := env.Pol.Sanitize(in)
+		lc := core.LocalCounts{}
+		var offs []int
+		for base := 4096; base <= len(in)+8; base += 4096 {
+			for d := -6; d <= 6; d++ {
+				if o := base + d; o >= 0 && o <= len(in) {
+					offs = append(offs, o)
+				}
+			}
+		}
+		offs = append(offs, 0, 1, len(in)-1, len(in))
+		for _, o := range offs {
+			for v := 0; v < 4; v++ {
+				fr := &faultReader{data: []byte(in), at: o, withData: v&1 == 1}
+				if v&2 != 0 {
+					fr.chunk = 512 + cs.R.Intn(4096)
+				}
+				var buf bytes.Buffer
+				err := env.Pol.SanitizeReaderToWriter(fr, &buf)
+				cs.Eval()
+				lc["reader_faults_near_buffer_boundary"]++
+				if err == nil {
+					cs.Violate("C16:reader-fault:nil-error:SanitizeReaderToWriter", fmt.Sprintf("source (%d bytes) failed at offset %d (with data: %v, chunk %d) but SanitizeReaderToWriter returned nil", len(in), o, fr.withData, fr.chunk),
+						map[string]interface{}{"policy": spec.Describe(env.Ops), "ops": env.Ops, "input": core.Show(core.Clip(in, 3000)), "offset": o, "input_length": len(in)})
+				}
+				if o == len(in) && !strings.HasPrefix(want, buf.String()) {
+					cs.Violate("C16:reader-fault:not-a-prefix", fmt.Sprintf("source failed after the whole %d-byte input; what was written is not a prefix of the fault-free output", len(in)), map[string]interface{}{"policy": spec.Describe(env.Ops), "ops": env.Ops, "input": core.Show(core.Clip(in, 3000))})
+				}
+				fr2 := &faultReader{data: []byte(in), at: o, withData: v&1 == 1, chunk: fr.chunk}
+				if bb := env.Pol.SanitizeReader(fr2); bb == nil || bb.Len() != 0 {
+					cs.Violate("C16:reader-fault:nonempty-buffer:SanitizeReader", fmt.Sprintf("source (%d bytes) failed at offset %d but SanitizeReader returned a non-empty buffer", len(in), o),
+						map[string]interface{}{"policy": spec.Describe(env.Ops), "ops": env.Ops, "input": core.Show(core.Clip(in, 3000)), "offset": o})
+				}
+				cs.Nontrivial(core.Hash("rb", fmt.Sprint(cs.Index), fmt.Sprint(o, v)))
+			}
+		}
+		cs.Flush(lc)
+	})
+	ctx.Floor("reader_faults_near_buffer_boundary", 5000)
 	ctx.MinNontrivial(int64(ctx.N(100000, 1000000)))
 	for _, c := range []string{"comment", "end-tag", "selfclosing-tag", "start-tag", "space-or-text-space", "text"} {
 		ctx.Floor("faulted_write:"+c, 1000)
